@@ -4,7 +4,7 @@
 From Coq Require Import String.
 From Coq Require Import List ZArith NArith Bool Arith Lia.
 Import ListNotations.
-Require Import PyLib PyHash Str Md5 G_text_consts TextModel G_fn_sir2 RefJun RefJunEnc RefJunDec.
+Require Import PyLib PyHash Str Md5 G_text_consts TextModel G_fn_sir2 RefJun RefStr.
 
 Definition wobj (cls : list Z) (rw rx cw : pyval) (salt : str) (d : list (pyval * pyval)) : pyval :=
   VObj cls [(S_ "reserved_words", rw); (S_ "salt", vstr salt); (S_ "sens_regex", rx); (S_ "sens_word_replacements", VDict d); (S_ "conflicting_words", cw)].
